@@ -1,23 +1,7 @@
 package sched
 
-import (
-	"github.com/buzzfeed/sso/internal/auth"
-	"github.com/buzzfeed/sso/internal/auth/circuit"
-	authproviders "github.com/buzzfeed/sso/internal/auth/providers"
-	"github.com/buzzfeed/sso/internal/pkg/aead"
-	"github.com/buzzfeed/sso/internal/pkg/groups"
-	"github.com/buzzfeed/sso/internal/pkg/singleflight"
-	proxyproviders "github.com/buzzfeed/sso/internal/proxy/providers"
-)
+import "github.com/buzzfeed/sso/internal/pkg/verifpools"
 
-// resetPools empties the deterministic stand-ins for sync.Pool in every instrumented package:
+// resetPools empties the deterministic stand-ins for sync.Pool in every rewritten package:
 // objects recycled in one run must not be handed out in the next (a run is a function of its plan).
-func resetPools() {
-	aead.VerifResetPools()
-	auth.VerifResetPools()
-	circuit.VerifResetPools()
-	authproviders.VerifResetPools()
-	groups.VerifResetPools()
-	singleflight.VerifResetPools()
-	proxyproviders.VerifResetPools()
-}
+func resetPools() { verifpools.ResetAll() }
